@@ -264,6 +264,12 @@ def format_target_spec_trace(scope, root_error, width=TRACE_WIDTH, depth=0, prev
     """
     unpack a scope into a multi-line but short summary
     """
+    return "\n".join(_trace_segments(scope, root_error, width, depth, prev_target, last_branch))
+
+
+def _trace_segments(scope, root_error, width, depth, prev_target, last_branch):
+    # one segment per Target / Spec / error entry (an entry may span several
+    # physical lines: a repr or an error message with newlines)
     segments = []
     indent = " " + "|" * depth
     tick = "| " if depth else "- "
@@ -274,7 +280,7 @@ def format_target_spec_trace(scope, root_error, width=TRACE_WIDTH, depth=0, prev
     fmt_t = mk_fmt("Target")
     fmt_s = mk_fmt("Spec")
     fmt_b = mk_fmt("Spec", "+ ")
-    recurse = lambda s, last=False: format_target_spec_trace(s, root_error, width, depth + 1, prev_target, last)
+    recurse = lambda s, last=False: _trace_segments(s, root_error, width, depth + 1, prev_target, last)
     tb_exc_line = lambda e: "".join(traceback.format_exception_only(type(e), e))[:-1]
     fmt_e = lambda e: indent + tick + tb_exc_line(e)
     for scope, spec, target, error, branches in _unpack_stack(scope):
@@ -283,8 +289,9 @@ def format_target_spec_trace(scope, root_error, width=TRACE_WIDTH, depth=0, prev
         prev_target = target
         if branches:
             segments.append(fmt_b(spec))
-            segments.extend([recurse(s) for s in branches[:-1]])
-            segments.append(recurse(branches[-1], last_branch))
+            for s in branches[:-1]:
+                segments.extend(recurse(s))
+            segments.extend(recurse(branches[-1], last_branch))
         else:
             segments.append(fmt_s(spec))
         if error is not None and error is not root_error:
@@ -296,10 +303,10 @@ def format_target_spec_trace(scope, root_error, width=TRACE_WIDTH, depth=0, prev
         remark = lambda s, m: s[:depth + 1] + m + s[depth + 2:]
         segments[0] = remark(segments[0], "\\")
         if not last_branch or last_line_error:
-            # (the last segment may be the text of a nested branch: mark its last line)
-            head, sep, tail = segments[-1].rpartition("\n")
-            segments[-1] = head + sep + remark(tail, "X")
-    return "\n".join(segments)
+            # (the last entry of the branch, which may belong to a nested branch;
+            # an entry may span several lines: the mark goes on its first)
+            segments[-1] = remark(segments[-1], "X")
+    return segments
 
 
 # TODO: not used (yet)
